@@ -151,6 +151,12 @@ class Block:
             # every pixel its own time axis
             self.gp = [[(xs[(x + p) % X][0],) + self.gp[p][x][1:] for x in range(X)] for p in range(P)]
         self.pix_dims = [] if layout in ('scalar', '1d') else ['spectrum']
+        # auxiliary operands of different shapes in one call: one flight path for all pixels (handed over as a 0-d
+        # variable) next to a per-pixel scattering angle ("scalar / 1-d / 2-d broadcast operand shapes")
+        self.shared_L = bool(self.pix_dims) and rng.random() < 0.15
+        if self.shared_L:
+            L0 = self.gp[0][0][1]
+            self.gp = [[(g[0], L0, g[2], g[3]) for g in row] for row in self.gp]
         self.ok = True
         try:
             self._aux()
@@ -205,7 +211,7 @@ class Block:
     def aux_var(self, name):
         vals, unit = (self.L_vals, self.units['Ltotal']) if name == 'Ltotal' else (
             self.th_vals, self.units['two_theta'])
-        v, dims = (vals[0], []) if not self.pix_dims else (vals, ['spectrum'])
+        v, dims = (vals[0], []) if not self.pix_dims or (name == 'Ltotal' and self.shared_L) else (vals, ['spectrum'])
         if self.pool is not None:
             return self.pool.get(name, v, dims, unit, self.dt_aux)
         return lc.var(v, dims, unit, self.dt_aux)
